@@ -114,15 +114,21 @@ let () =
          | _ -> Mlutil.print_model ["none"; "ok"] "fail:no-answer")
     | "start", [_store; period; cancel_ms; boxes] ->
         let st0 = fill boxes in
-        let evs = if int_of_string cancel_ms < 0 then [] else [LCancel] in
+        let cms = int_of_string cancel_ms in
+        (* what the select statements of Start see: the minute timer fires before a cancellation that comes later *)
+        let evs = if cms < 0 then [] else if cms >= 60000 then [LTimer; LCancel] else [LCancel] in
         let (scans, returned) = start (z_of_int (int_of_string period)) evs in
-        let model = [(if returned then "returned" else "BLOCKED"); dump st0] in
+        (* a scan kicked off by the loop runs one minute after the deliveries: ages have grown by 60 s *)
+        let st1 = if int_of_nat scans = 0 then st0
+                  else scan cfg (z_of_int (60 - int_of_string period)) (List.map fst st0.counts) st0 in
+        let model = [(if returned then "returned" else "BLOCKED"); dump st1] in
         let verdict = match outs with
           | [res; d] ->
               if res <> "returned" then "fail:start-join-timeout"
-              else if d <> dump st0 then (if int_of_string period <= 0 then "fail:zero-period-deleted" else "fail:start-deleted")
+              else if d <> dump st1 then
+                (if int_of_string period <= 0 then "fail:zero-period-deleted"
+                 else if int_of_nat scans = 0 then "fail:start-deleted" else "fail:start-scan-not-exact")
               else "ok"
           | _ -> "fail:no-answer" in
-        ignore scans;
         Mlutil.print_model model verdict
     | _ -> Mlutil.print_model ["UNKNOWN-KIND"] "ok")
